@@ -71,6 +71,13 @@ def build_body(pt, ts, case, log_mode):
         else:
             NT = type("NT", (abi.NamedTuple,), {"__annotations__": ann})
             root = NT()
+            # a second NamedTuple class with the same field names at other positions, instantiated after the one under test:
+            # field lookup is per class, so this must not matter
+            n = len(ann)
+            decoy_ann = {"f%d" % ((i + 1) % n if n > 1 else 0): abi.Field[abi.Uint64] for i in range(n)}
+            decoy_ann = dict(sorted(decoy_ann.items(), key=lambda kv: -int(kv[0][1:])))
+            Decoy = type("Decoy", (abi.NamedTuple,), {"__annotations__": decoy_ann})
+            Decoy()
     win = case.get("window")
     if win:
         pre, total = win["pre"], win["len"]
